@@ -1013,11 +1013,12 @@ lpc_gate_harness!(c18_lpc_verify_gate_lengths, false, (1, 2, 1), (2, 1, 1), (1, 
 /// `Frame::new(header, K sub-frames)` for a header as `FrameHeader::new` returns it (block size
 /// 1..=32767, 1..=8 independent channels or a stereo pair: datatype::verif::c17_frame_header_new)
 /// with a symbolic channel assignment and K constant sub-frames as `Constant::new` returns them:
-/// returns; Ok <=> the channel count is K; Ok ==> the frame holds the header and the K sub-frames
+/// returns; Ok <=> the channel count is K and every sub-frame has the header's block size and the
+/// width of its channel (16, or 17 for a side channel); Ok ==> the frame holds the header and the K sub-frames
 /// and verifies.  `Frame::verify()` is: every sub-frame verifies, a precomputed bitstream (absent
-/// after `new`) matches, the header verifies; the quick units check these conjuncts, the thorough
-/// unit calls `Frame::verify()` itself (504 s even for an empty frame: its body pulls in the whole
-/// frame writer and CRC-16).
+/// after `new`) matches, the header verifies; the unit checks these conjuncts instead of
+/// calling `Frame::verify()` (504 s even for an empty frame: its body pulls in the whole frame
+/// writer and CRC-16; a unit calling it did not finish in 600 s and was dropped).
 fn any_frame_header() -> (FrameHeader, usize, usize) {
     let n: u8 = kani::any();
     kani::assume(1 <= n && n <= 8);
@@ -1041,9 +1042,28 @@ fn any_frame_header() -> (FrameHeader, usize, usize) {
     (header, channels, x as usize + 1)
 }
 
-fn any_constant_subframe(bs: usize) -> SubFrame {
+/// a constant sub-frame as `Constant::new` returns it, whose block size is the header's or some
+/// other one and whose width is 16 or 17 bits; returns (sub-frame, block size agrees, width)
+fn any_constant_subframe(bs: usize) -> (SubFrame, bool, usize) {
     let dc: i16 = kani::any();
-    Constant::from_parts(bs, dc as i32, 16).into()
+    let same: bool = kani::any();
+    let other: u16 = kani::any();
+    kani::assume(1 <= other && other <= 32767 && other as usize != bs);
+    let sbs = if same { bs } else { other as usize };
+    let wide: bool = kani::any();
+    let bps: u8 = if wide { 17 } else { 16 };
+    (Constant::from_parts(sbs, dc as i32, bps).into(), same, bps as usize)
+}
+
+/// RFC 9639 9.1.3: the side channel of a stereo pair is one bit wider (channel 1 for left/side and
+/// mid/side, channel 0 for side/right).
+fn spec_width(header: &FrameHeader, ch: usize) -> usize {
+    let side = match header.channel_assignment() {
+        ChannelAssignment::Independent(_) => false,
+        ChannelAssignment::LeftSide | ChannelAssignment::MidSide => ch == 1,
+        ChannelAssignment::RightSide => ch == 0,
+    };
+    16 + if side { 1 } else { 0 }
 }
 
 fn frame_new_check(
@@ -1052,10 +1072,14 @@ fn frame_new_check(
     bs: usize,
     k: usize,
     call_verify: bool,
+    shapes_ok: bool,
 ) -> bool {
     match r {
         Ok(f) => {
             assert!(channels == k);
+            // the sub-frames have the block size and the widths the header declares: a decoder
+            // reads them with those, so anything else cannot parse back to the same frame
+            assert!(shapes_ok);
             assert!(f.subframe_count() == k && f.block_size() == bs);
             if call_verify {
                 assert!(f.verify().is_ok());
@@ -1077,44 +1101,38 @@ fn frame_new_check(
             true
         }
         Err(e) => {
-            assert!(channels != k);
+            assert!(channels != k || !shapes_ok);
             std::mem::forget(e);
             false
         }
     }
 }
 
-//@ unit props=C18 tier=quick kind=bounded timeout=600 funcs="Frame::new; Frame::from_parts; FrameHeader::verify; Constant::verify" bound="0, 1 and 2 constant sub-frames; channel assignment (every variant, 1..=8 channels), block size, frame number, offsets symbolic" note="whole-frame serialisation (CRC-16 over MemSink<u64>) is C08 / bitrepr units; Frame::new / Frame::verify do NOT check that the sub-frames' block size and width agree with the header (see report)"
+//@ unit props=C18 tier=quick kind=bounded timeout=600 funcs="Frame::new; Frame::from_parts; FrameHeader::verify; Constant::verify" bound="0, 1 and 2 constant sub-frames; channel assignment (every variant, 1..=8 channels), block size, frame number, offsets symbolic" note="whole-frame serialisation (CRC-16 over MemSink<u64>) is C08 / bitrepr units; Ok <=> the channel count matches AND every sub-frame has the header's block size and the width RFC 9639 assigns to its channel"
 #[kani::proof]
 #[kani::unwind(8)]
 #[kani::stub(std::fmt::format, stub_format)]
 #[kani::stub(VerifyError::within, stub_within)]
 fn c18_frame_new() {
     let (header, channels, bs) = any_frame_header();
-    let ok = frame_new_check(Frame::new(header, std::iter::empty()), channels, bs, 0, false);
+    let ok = frame_new_check(Frame::new(header, std::iter::empty()), channels, bs, 0, false, true);
     assert!(!ok);
     let (header, channels, bs) = any_frame_header();
-    let it = std::iter::once(any_constant_subframe(bs));
-    let ok = frame_new_check(Frame::new(header, it), channels, bs, 1, false);
+    let (s0, same0, w0) = any_constant_subframe(bs);
+    let shapes_ok = same0 && w0 == spec_width(&header, 0);
+    let ok = frame_new_check(Frame::new(header, std::iter::once(s0)), channels, bs, 1, false, shapes_ok);
     kani::cover!(ok);
-    kani::cover!(!ok);
+    kani::cover!(!ok && channels == 1);
     let (header, channels, bs) = any_frame_header();
-    let it = std::iter::once(any_constant_subframe(bs)).chain(std::iter::once(any_constant_subframe(bs)));
-    let ok = frame_new_check(Frame::new(header, it), channels, bs, 2, false);
-    kani::cover!(ok);
-    kani::cover!(!ok);
-}
-
-//@ unit props=C18 tier=thorough kind=bounded timeout=2400 funcs="Frame::new; Frame::verify" bound="1 constant sub-frame; channel assignment, block size, frame number, offset symbolic; calls Frame::verify() itself"
-#[kani::proof]
-#[kani::unwind(8)]
-#[kani::stub(std::fmt::format, stub_format)]
-#[kani::stub(VerifyError::within, stub_within)]
-fn c18_frame_verify_after_new() {
-    let (header, channels, bs) = any_frame_header();
-    let it = std::iter::once(any_constant_subframe(bs));
-    let ok = frame_new_check(Frame::new(header, it), channels, bs, 1, true);
-    kani::cover!(ok);
+    let (s0, same0, w0) = any_constant_subframe(bs);
+    let (s1, same1, w1) = any_constant_subframe(bs);
+    let shapes_ok = same0 && same1 && w0 == spec_width(&header, 0) && w1 == spec_width(&header, 1);
+    let it = std::iter::once(s0).chain(std::iter::once(s1));
+    let ok = frame_new_check(Frame::new(header, it), channels, bs, 2, false, shapes_ok);
+    kani::cover!(ok && w0 == 17);
+    kani::cover!(ok && w1 == 17);
+    kani::cover!(!ok && channels == 2 && same0 && same1);
+    kani::cover!(!ok && channels == 2 && !same1);
 }
 
 fn new_unknown<const N: usize>() {
